@@ -31,15 +31,15 @@ def make_collection(kind, mps, runtime=False):
         add(1, 0, _blob(1, mps))                    # exactly one packet  -> ZLP when wLength > mps
         add(2, 0, _blob(2, 2 * mps))                # exactly two packets
         add(3, 0, bytes([6, 3, 0x09, 0x04, 0x07, 0x04]))   # language descriptor (two languages)
+        add(3, 5, _blob(5, mps + 3))                # inserted out of index order on purpose
         add(3, 2, _blob(4, 5))
-        add(3, 5, _blob(5, mps + 3))
         add(15, 1, _blob(6, 3 * mps))         # three packets exactly, length not a power of two
     elif kind == "dense":
         # consecutive indices only (no index map in the block ROM), includes type 0 and a 1-byte descriptor
         add(0, 0, _blob(7, 1))
         add(1, 0, _blob(8, 2 * mps + 3))
+        add(2, 1, _blob(10, mps + 1))               # inserted out of index order on purpose
         add(2, 0, _blob(9, mps - 1))
-        add(2, 1, _blob(10, mps + 1))
         add(3, 0, bytes([4, 3, 0x09, 0x04]))
         add(3, 1, _blob(11, mps))
     elif kind == "suite":
